@@ -38,12 +38,13 @@ def run(chk):
     chk.section("unify_args", lambda: u1(chk))
     chk.section("constructor-table", lambda: u2(chk))
     chk.section("unify_var", lambda: u3(chk))
+    chk.section("threading", lambda: u4(chk))
     for i in range(NCH):
         chk.section(f"bounded-{i}", lambda i=i: bounded(chk, i))
     chk.expected_min_obligations = 60
     chk.assumptions += ["kind constraints of inference variables (copyable / droppable) are enforced after unification by Parameter.check_arg, not by unify: the bounded layer uses variables of the most general kind",
                         "argument lists of length <= 3 are enumerated in U1"]
-    chk.not_covered += ["check_call / synthesize_call / check_type_against (how unify is driven by the checker)", "protocol-constrained variables (not in this version)"]
+    chk.not_covered += ["check_type_against / synthesize_call beyond the threading of the substitution through arguments and tuple / list components (U4)", "protocol-constrained variables (not in this version)"]
 
 
 def u1(chk):
@@ -107,6 +108,123 @@ def u1(chk):
                 cnt += 1
     chk.record("_unify_args:shapes-explored", cnt >= 40, str(cnt), kind="reachability")
     chk.use_engine(e)
+
+
+def u4(chk):
+    """U4 — how the checker drives inference: the solutions found for earlier arguments / tuple
+    components / list elements constrain the later ones.  ExprChecker.visit_Tuple, visit_List and
+    type_check_args (checker/expr_checker.py), real code: component i is checked against
+    expected_i.substitute(S_i) where S_i is the union of the substitutions returned for
+    components 0..i-1 (plus the incoming one for type_check_args), and the union of all of them
+    is returned.  Without this `pair((True, 3))` for `pair(x: tuple[T, T])` would type-check
+    although no instantiation of T exists."""
+    EC = "guppylang_internals.checker.expr_checker"
+    e = mk_engine(chk)
+    for q in ("ExprChecker.visit_Tuple", "ExprChecker.visit_List", "type_check_args"):
+        e.func_info(EC, q)
+    m = e.module(EC)
+    e.models["guppylang_internals.experimental:check_lists_enabled"] = lambda it, a, k: None
+    e.models[f"{EC}:check_num_args"] = lambda it, a, k: None
+    e.models["guppylang_internals.tys.builtin:is_list_type"] = lambda it, a, k: True
+    e.models["guppylang_internals.tys.builtin:get_element_type"] = lambda it, a, k: a[0].fields["elem"]
+
+    def mk_ty(name, log):
+        def substitute(sub):
+            snap = dict(sub)
+            log.append(("substitute", name, snap))
+            return ("SUBSTITUTED", name, tuple(sorted(snap.items())))
+        return SObj(ClassVal("Ty", builtin=True), {"name": name, "substitute": Builtin("substitute", substitute), "unsolved_vars": set()})
+
+    def expected_checks(n, names, init):
+        out, acc = [], dict(init)
+        for i in range(n):
+            out.append((f"el{i}", ("SUBSTITUTED", names[i], tuple(sorted(acc.items())))))
+            acc[f"v{i}"] = f"sol{i}"
+        return out, acc
+
+    for n in range(0, 4):
+        # ---- visit_Tuple / visit_List
+        for meth in ("visit_Tuple", "visit_List"):
+            def t(it, n=n, meth=meth):
+                ECc = it.lookup_global(m, "ExprChecker")
+                TT = it.lookup_global(e.module(TY), "TupleType")
+                log, checks = [], []
+                tys = [mk_ty(f"t{i}", log) for i in range(n)]
+                elem = mk_ty("elem", log)
+
+                def check(el, ty, *a):
+                    checks.append((el, ty))
+                    return (("CHECKED", el), {f"v{len(checks) - 1}": f"sol{len(checks) - 1}"})
+                self_ = SObj(ECc, {"check": Builtin("check", check), "ctx": None})
+                node = SObj(ClassVal("Node", builtin=True), {"elts": [f"el{i}" for i in range(n)]})
+                ty = SObj(TT, {"element_types": tys}) if meth == "visit_Tuple" else SObj(ClassVal("ListTy", builtin=True), {"elem": elem})
+                r = it.call_method(self_, meth, [node, ty])
+                return r, checks, node
+
+            def post(p, n=n, meth=meth):
+                if p.kind != "return":
+                    return z3.BoolVal(False)
+                (rnode, rsub), checks, node = p.value
+                want, acc = expected_checks(n, [f"t{i}" for i in range(n)] if meth == "visit_Tuple" else ["elem"] * n, {})
+                ok = checks == want and rsub == acc and rnode is node and node.fields["elts"] == [("CHECKED", f"el{i}") for i in range(n)]
+                return z3.BoolVal(ok)
+            chk.prove_paths(f"ExprChecker.{meth}[{n}]:component-i-checked-against-expected_i.substitute(solutions-of-components<i)/\\returns-the-union", e.explore(t), post,
+                            func=f"{EC}:ExprChecker.{meth}", replay=lambda m_: {"script": REPLAY_CALL, "input": {"sig": "x: tuple[T, T]", "arg": "(True, 3)"}})
+        # ---- type_check_args
+        def t2(it, n=n):
+            f = it.lookup_global(m, "type_check_args")
+            IF = it.lookup_global(e.module(TY), "InputFlags")
+            log, checks = [], []
+            tys = [mk_ty(f"t{i}", log) for i in range(n)]
+
+            def check(self_, el, ty, *a):
+                checks.append((el, ty))
+                return (("CHECKED", el), {f"v{len(checks) - 1}": f"sol{len(checks) - 1}"})
+            e.models[f"{EC}:ExprChecker.check"] = lambda it2, a, k: check(*a)
+            out = SObj(ClassVal("Ty", builtin=True), {"unsolved_vars": set()})
+            fty = SObj(ClassVal("FunctionType", builtin=True), {"parametrized": False, "comptime_args": [], "output": out,
+                                                               "inputs": [SObj(ClassVal("FuncInput", builtin=True), {"ty": tys[i], "flags": it.getattr(IF, "NoFlags")}) for i in range(n)]})
+            r = it.call(f, [[f"el{i}" for i in range(n)], fty, {"v_in": "sol_in"}, None, "NODE"], {})
+            return r, checks
+
+        def post2(p, n=n):
+            if p.kind != "return":
+                return z3.BoolVal(False)
+            (args, rsub), checks = p.value
+            want, acc = expected_checks(n, [f"t{i}" for i in range(n)], {"v_in": "sol_in"})
+            return z3.BoolVal(checks == want and rsub == acc and args == [("CHECKED", f"el{i}") for i in range(n)])
+        chk.prove_paths(f"type_check_args[{n}]:argument-i-checked-against-input_i.substitute(incoming+solutions-of-arguments<i)/\\returns-the-union", e.explore(t2), post2,
+                        func=f"{EC}:type_check_args", replay=lambda m_: {"script": REPLAY_CALL, "input": {"sig": "x: T, y: T", "arg": "True, 3"}})
+    e.models.pop(f"{EC}:ExprChecker.check", None)
+    chk.use_engine(e)
+
+
+REPLAY_CALL = r'''
+from guppylang_internals.error import GuppyError
+import tempfile, importlib.util, os, sys, shutil
+I = INPUT
+src = f"""from guppylang import guppy
+T = guppy.type_var("T")
+@guppy.declare
+def gen({I['sig']}) -> None: ...
+@guppy
+def main() -> None:
+    gen({I['arg']})
+"""
+d = tempfile.mkdtemp(dir=os.environ.get("TMPDIR", "/var/tmp")); fn = os.path.join(d, "replay_c12.py"); open(fn, "w").write(src)
+spec = importlib.util.spec_from_file_location("replay_c12", fn); m = importlib.util.module_from_spec(spec); sys.modules["replay_c12"] = m
+try:
+    spec.loader.exec_module(m)
+    try:
+        m.main.check(); accepted = True
+    except GuppyError:
+        accepted = False
+    out = {"violates": accepted, "accepted": accepted, "required": "rejected: no instantiation of T fits a bool and an int", "program": src}
+except Exception as ex:
+    out = {"violates": False, "error": repr(ex)[:300]}
+shutil.rmtree(d, ignore_errors=True)
+print(json.dumps(out))
+'''
 
 
 def u2(chk):
